@@ -8,7 +8,7 @@ import (
 )
 
 func init() {
-	register("C06", ruleC06UnionFields, ruleC06UnionWiring, ruleC06EmptyList, ruleC06BranchKinds, ruleC06DistinctLoop, ruleC06DistinctWiring)
+	register("C06", ruleC06UnionFields, ruleC06UnionWiring, ruleC06BranchExec, ruleC06EmptyList, ruleC06BranchKinds, ruleC06DistinctLoop, ruleC06DistinctWiring, ruleExecScansEveryRow)
 }
 
 func (c *Ctx) unionFunc() (*ssa.Function, string) {
@@ -63,7 +63,11 @@ func ruleC06UnionWiring(c *Ctx) {
 	var why []string
 	n := 0
 	for _, p := range paths {
-		if p.Exit != "return" || len(p.Ret) != 1 || !p.Ret[0].Nil {
+		if p.Exit != "return" || len(p.Ret) != 1 {
+			continue
+		}
+		// a success path returns nil, or forwards the result of the last build step (`return BuildLimit(...)`)
+		if !p.Ret[0].Nil && !(p.Ret[0].T != nil && p.Ret[0].T.Op == "call") {
 			continue
 		}
 		// success = every error test assumed nil
@@ -94,6 +98,9 @@ func ruleC06UnionWiring(c *Ctx) {
 					sawStar = true
 				}
 			case "call":
+				if strings.HasSuffix(e.Callee, "BuildUnion") {
+					why = append(why, "the union builder is re-entered on the same query for a branch")
+				}
 				if strings.HasSuffix(e.Callee, "BuildLimit") && len(e.Args) == 2 && e.Args[1].Op == "field" && e.Args[1].Name == "Limit" && e.Args[1].Args[0].Op == "param" && e.Args[1].Args[0].Name == ep {
 					sawLimit = true
 				}
@@ -141,6 +148,139 @@ func ruleC06UnionWiring(c *Ctx) {
 		why = append(why, "no success path found")
 	}
 	c.Check(len(why) == 0, "c06.union-wiring", key, c.P.Pos(f.Pos()), fmt.Sprintf("%d success paths: left rows then right rows, distinct from the statement, * projection, limit applied", n), strings.Join(uniq(why), "; "))
+}
+
+// ruleC06BranchExec: every branch is executed as a query of its own.
+func ruleC06BranchExec(c *Ctx) {
+	c.Doc("c06.branch-exec", "each union branch is executed as a query of its own: the rows a branch contributes derive, on every success path, from execAndPostProcess() of a query prepared from that branch's statement (so a nested UNION keeps its own DISTINCT and LIMIT); the only other success value is an empty slice")
+	f, ep := c.unionFunc()
+	if f == nil {
+		c.Unknown("c06.branch-exec", "BuildUnion", "-", "anchor lost")
+		return
+	}
+	// the helper(s) that receive expr.Left / expr.Right
+	helpers := map[*ssa.Function]int{}
+	allInstrs(f, func(_ *ssa.BasicBlock, in ssa.Instruction) {
+		call, ok := in.(*ssa.Call)
+		if !ok || call.Common().StaticCallee() == nil || !c.P.InModule(call.Common().StaticCallee()) {
+			return
+		}
+		for i, a := range call.Common().Args {
+			fr := fieldsRead(NewTB().Of(a), ep)
+			if fr["Left"] || fr["Right"] {
+				helpers[call.Common().StaticCallee()] = i
+			}
+		}
+	})
+	check := func(fn *ssa.Function, stmtTerm func(t *Term) bool, key string) {
+		paths, err := WalkFunc(fn, WalkCfg{MaxVisits: 1, MaxPaths: 4000})
+		if err != nil {
+			c.Unknown("c06.branch-exec", key, c.P.Pos(fn.Pos()), err.Error())
+			return
+		}
+		ok, why, n := true, "", 0
+		for _, p := range paths {
+			if p.Exit != "return" || len(p.Ret) != 2 || !p.Ret[1].Nil && !(p.Ret[1].T != nil && p.Ret[1].T.Op == "ext") {
+				continue
+			}
+			bad := false
+			for k, v := range p.Asg {
+				if kt := p.KeyTerm[k]; kt != nil {
+					if x, isN := isNilTest(kt); isN && isErrorType(x) && !isTrueC(v) {
+						bad = true
+					}
+				}
+			}
+			if bad {
+				continue
+			}
+			n++
+			r := p.Ret[0].T
+			rs := termStr(r)
+			own := r != nil && r.Contains(func(x *Term) bool {
+				if x.Op != "call" || !(strings.HasSuffix(x.Name, ".execAndPostProcess") || strings.HasSuffix(x.Name, ".exec")) || len(x.Args) == 0 {
+					return false
+				}
+				recv := ext0(x.Args[0])
+				if recv == nil {
+					return false
+				}
+				a, isPrep := callArgs(recv, "Prepare")
+				return isPrep && len(a) == 3 && stmtTerm(a[1])
+			})
+			empty := strings.HasPrefix(rs, "slice:alloc:") || strings.HasPrefix(rs, "make:slice") || r != nil && r.Op == "alloc"
+			if !own && !empty {
+				ok, why = false, "a success path yields "+rs+", which is not the result of executing the branch's own statement as a query"
+			}
+		}
+		if n == 0 {
+			ok, why = false, "no success path"
+		}
+		c.Check(ok, "c06.branch-exec", key, c.P.Pos(fn.Pos()), fmt.Sprintf("%d success paths all return rows of Prepare(branch statement).execAndPostProcess()", n), why)
+	}
+	if len(helpers) == 0 {
+		// inline form: the builder itself prepares and executes both branches
+		check(f, func(t *Term) bool { fr := fieldsRead(t, ep); return fr["Left"] || fr["Right"] }, c.P.funcKey(f)+"/inline")
+		return
+	}
+	for h, idx := range helpers {
+		if h.Name() == "Prepare" {
+			check(f, func(t *Term) bool { fr := fieldsRead(t, ep); return fr["Left"] || fr["Right"] }, c.P.funcKey(f)+"/inline")
+			continue
+		}
+		c.Fn(c.P.funcKey(h))
+		pn := ""
+		if idx < len(h.Params) {
+			pn = h.Params[idx].Name()
+		}
+		check(h, func(t *Term) bool {
+			return t.Contains(func(x *Term) bool { return x.Op == "param" && x.Name == pn })
+		}, c.P.funcKey(h))
+	}
+}
+
+// ruleExecScansEveryRow: the row loop of exec has no exit other than exhaustion or an error.
+func ruleExecScansEveryRow(c *Ctx) {
+	c.Doc("exec.scan-complete", "the loop of (*Query).exec over query.from examines every source row: an iteration ends by moving to the next row or by returning an error; it never leaves the loop early with success (no break / early return) — later stages (grouping, DISTINCT, ORDER BY, the LIMIT window) see all rows that passed WHERE")
+	exec := c.P.Method(modPath, "Query", "exec")
+	if exec == nil {
+		c.Unknown("exec.scan-complete", "(*Query).exec", "-", "anchor lost")
+		return
+	}
+	c.Fn("(*Query).exec")
+	lp := findRangeLoopOverField(exec, "from")
+	if lp == nil {
+		c.Unknown("exec.scan-complete", "(*Query).exec", c.P.Pos(exec.Pos()), "anchor lost: no loop over query.from")
+		return
+	}
+	// any block of the loop with a successor outside the loop, other than the header itself, is an early exit;
+	// it must lead to an error return only
+	ok, why := true, ""
+	for _, b := range exec.Blocks {
+		if !inNaturalLoop(lp.header, b) {
+			continue
+		}
+		for _, s := range b.Succs {
+			if s == lp.header || inNaturalLoop(lp.header, s) {
+				continue
+			}
+			// s is outside the loop: every path from s must be an error return
+			paths, err := WalkFrom(exec, s, b, WalkCfg{MaxVisits: 1, MaxPaths: 3000, NoEffects: true})
+			if err != nil {
+				ok, why = false, err.Error()
+				continue
+			}
+			for _, p := range paths {
+				if p.Exit == "return" && len(p.Ret) == 2 && p.Ret[1].Nil {
+					ok, why = false, "the scan of query.from can be left at "+c.P.Pos(b.Instrs[len(b.Instrs)-1].Pos())+" before all rows were examined, and exec still returns successfully"
+				}
+				if p.Exit == "cut" || p.Exit == "stop" {
+					ok, why = false, "the scan of query.from can be left early at "+c.P.Pos(b.Instrs[len(b.Instrs)-1].Pos())
+				}
+			}
+		}
+	}
+	c.Check(ok, "exec.scan-complete", "(*Query).exec/row-loop", c.P.Pos(lp.header.Instrs[0].Pos()), "the only exits of the row loop are exhaustion and error returns", why)
 }
 
 func ruleC06EmptyList(c *Ctx) {
